@@ -13,7 +13,7 @@ import (
 )
 
 const expRule = "cases: NetworkPolicy-only worlds rich in rule selectors (nil / {} / specific namespace selectors, pod selectors with expressions, the same selector in several policies and both directions, selectors real workloads do and do not satisfy, named ports, entire-cluster rules next to specific ones) analysed with WithExposureAnalysis(); " +
-	"for every workload and direction the reported exposure entries are judged against the reference model on HYPOTHETICAL pods enumerated exhaustively over the vocabulary: 125 pod label sets (3 keys x {absent,a,b,c,fresh}) x (every existing namespace + a new namespace under 70 label sets) x 3 named-port declarations (names -> numbers under TCP, under UDP/SCTP, none); "
+	"for every workload and direction the reported exposure entries are judged against the reference model on HYPOTHETICAL pods enumerated exhaustively over the vocabulary: 125 pod label sets (3 keys x {absent,a,b,c,fresh}) x (every existing namespace + a new namespace under 70 label sets) x 5 named-port declarations (names -> fresh numbers under TCP, under UDP/SCTP; none; names -> numbers the policies mention, under TCP and under UDP/SCTP); "
 
 func init() {
 	run.Register(&run.Check{
@@ -73,6 +73,9 @@ var expPortVariants = [][]world.CPort{
 	{{Num: 7001, Name: "http", Proto: "TCP"}, {Num: 7002, Name: "dns"}, {Num: 7003, Name: "metrics", Proto: "TCP"}},
 	{{Num: 7001, Name: "http", Proto: "UDP"}, {Num: 7002, Name: "dns", Proto: "UDP"}, {Num: 7004, Name: "metrics", Proto: "SCTP"}},
 	{},
+	// names declared on numbers the policies themselves mention (a named port may denote exactly the port a numeric rule leaves out)
+	{{Num: 80, Name: "http", Proto: "TCP"}, {Num: 443, Name: "dns"}, {Num: 8080, Name: "metrics", Proto: "TCP"}},
+	{{Num: 80, Name: "http", Proto: "UDP"}, {Num: 443, Name: "dns", Proto: "SCTP"}, {Num: 8080, Name: "metrics", Proto: "UDP"}},
 }
 
 func expLabelSets(vals []string) []map[string]string {
@@ -104,6 +107,9 @@ func genExposureWorld(g *rng.R, allowUnusedNs bool) *world.World {
 		cfg.UnusedNsPolicy = 0.5
 	}
 	w := world.GenNPWorld(g, cfg)
+	if g.P(0.3) { // full / almost-full / complementary port sets, also as entire-cluster rules next to specific ones
+		world.AddCanonStress(g, w)
+	}
 	// share selectors between policies and directions
 	var pool []*world.NPPeer
 	for i := range w.NetPols {
